@@ -203,6 +203,14 @@ func buildScenarios() (out []*scenario) {
 	for _, d := range allDBs {
 		for _, pk := range []string{packSingle, packEach} {
 			for _, sz := range cacheSizes {
+				if sz != 0 && d.Name == "host+parent" {
+					// One answer carries hashes of two different prefixes;
+					// storeInCache walks them in Go map order, so with a
+					// size limit the LRU order (and the eviction victim)
+					// would differ from run to run.  Explored with the
+					// unlimited cache only, where the order cannot matter.
+					continue
+				}
 				out = append(out, &scenario{Label: fmt.Sprintf("fixed:db=%s:pack=%s:cache=%d", d.Name, pk, sz), DB: d, Pack: pk, Size: sz})
 			}
 		}
@@ -384,7 +392,7 @@ func (sc *scenario) exec(hist []op) (st lib.Step) {
 						o.Name, fb, holds(may), must, may, jsonStr(fsvc.log), ctx)
 				}
 				if blocked != fb {
-					return fail(fmt.Sprintf("cache:%s:%s:cache=%dB:db=%s", fpfn(blocked), diagnose(o.Name, blocked, svc.db, beforeEntries), sc.Size, svc.db.Name),
+					return fail(fmt.Sprintf("cache:%s:%s:cache=%dB", fpfn(blocked), diagnose(o.Name, blocked, svc.db, beforeEntries), sc.Size),
 						"Check(%q) = %v with the shared cache (%s), but a fresh Checker on the same database answers %v; reference: must block %v%s",
 						o.Name, blocked, src, fb, must, ctx)
 				}
@@ -416,9 +424,9 @@ func diagnose(name string, blocked bool, db *dbSpec, before []hashprefix.VerifCa
 		return "entry-holds-hash-not-in-database-or-not-of-this-name"
 	}
 	hs := dbHashes(db)
-	must, _ := refNames(name)
+	_, may := refNames(name)
 	now := vtime.Now()
-	for _, n := range must {
+	for _, n := range may {
 		h := hashHex(n)
 		if !hs[h] {
 			continue
@@ -781,11 +789,11 @@ func run(c *lib.Ctx) {
 		labels = append(labels, l)
 	}
 	sort.Strings(labels)
-	depthFixed, depthSwitch := 4, 4
+	depthFixed, depthSwitch := 5, 5
 	if !c.Quick() {
 		depthFixed, depthSwitch = 6, 6
 	}
-	c.Note("bfs_bounds", fmt.Sprintf("%d scenarios (25 databases x 2 answer packings x cache size {unlimited,%dB,%dB} with a fixed database, 6 with database switches); operations check(name) over the pool, advance clock by {1s, CacheTime-1s, CacheTime+1s}, switch database (switch scenarios only); depth %d (fixed) / %d (switch)", len(labels), smallCache, tinyCache, depthFixed, depthSwitch))
+	c.Note("bfs_bounds", fmt.Sprintf("%d scenarios (25 databases x 2 answer packings x cache size {unlimited,%dB,%dB} with a fixed database (the one database whose answers span two prefixes: unlimited cache only), 6 with database switches); operations check(name) over the pool, advance clock by {1s, CacheTime-1s, CacheTime+1s}, switch database (switch scenarios only); depth %d (fixed) / %d (switch)", len(labels), smallCache, tinyCache, depthFixed, depthSwitch))
 	// Scenarios are dealt to shard processes; inside one scenario the BFS is
 	// single-threaded because the virtual clock is process-global.
 	shardI, shardN := c.ShardI, c.ShardN
